@@ -1311,6 +1311,10 @@ class Project:
             try:
                 # First, check if we can look up the state point.
                 statepoint = self._get_statepoint(job_id, validate=False)
+                if not isinstance(statepoint, dict):
+                    # The state point file contains valid JSON, but not a state point.
+                    self._sp_cache.pop(job_id, None)
+                    raise KeyError(job_id)
                 # Check if state point and id correspond.
                 correct_id = calc_id(statepoint)
                 if correct_id != job_id:
@@ -1333,7 +1337,7 @@ class Project:
                         logger.info("Moved job to correct workspace.")
 
                 job = self.open_job(statepoint)
-            except KeyError:
+            except (KeyError, JobsCorruptedError):
                 logger.critical(
                     f"Unable to look up state point for job with id '{job_id}'."
                 )
